@@ -138,7 +138,7 @@ def run_stack(li, idxs, acc, judged_prefixes):
             acc.outcome(label)
 
             def bad(oracle, obs, exp, **sig):
-                s = {"oracle": oracle, "middleware": label.split("(")[0], "stage": depth + 1}
+                s = {"oracle": oracle, "middleware": label.split("(")[0]}
                 s.update(sig)
                 acc.violation(s, {"case": case, "observed": obs, "expected": exp}, size=len(idxs) * 100 + li)
 
@@ -155,11 +155,6 @@ def run_stack(li, idxs, acc, judged_prefixes):
             al = alias(lib0, out) if cur is not lib0 else []
             if al:
                 bad("stack_output_shares_nothing_with_original", [describe(o) for o in al[:4]], "no shared mutable object", shared=type(al[0]).__name__)
-                return
-            # the middleware itself must not keep handing out its own state
-            al = alias(m, out)
-            if al:
-                bad("output_shares_nothing_with_the_middleware", [describe(o) for o in al[:4]], "no shared mutable object", shared=type(al[0]).__name__)
                 return
         cur = out
 
